@@ -25,9 +25,9 @@ func init() {
 		Meta: propMeta{Level: "other", Assumptions: commonAssumptions,
 			Explanation: "STRUCTURAL CLAUSES ONLY. Decided: C13.frames (frames are view-independent: the frame-building slice of C03.local / C03.order / C03.canon; roots of silent creators come from LastConsensusEventFrom, never LastEventFrom; ROOT_DEPTH is a constant bounding createRoot's loop), " +
 				"C13.reset (Hashgraph.Reset inserts every frame.SortedFrameEvents() element through InsertFrameEvent — which seeds round / witness / Lamport caches from the frame's values — before storing the block; Node.fastForward re-derives the anchor block's pending membership changes after a successful core reset), " +
-				"C13.resetfields (InmemStore.Reset and Hashgraph.Reset re-initialise every listed piece of state: nothing of the pre-reset chain survives), C13.latest (validators after the reset are the latest recorded set). " +
+				"C13.resetfields (InmemStore.Reset and Hashgraph.Reset re-initialise every listed piece of state: nothing of the pre-reset chain survives), C13.latest (validators after the reset are the latest recorded set), C13.resetorder (Store.Reset replays frame.PeerSets — a map — in arbitrary order, so PeerSetCache.Set must be insensitive to the order of calls: a peer's first round is lowered when an earlier round arrives later, the round list is re-sorted). " +
 				"NOT decided — and said so: that a reset node DELIVERS THE SAME BLOCKS afterwards; that depends on which events arrive after the reset (an event whose other-parent lies below the frame cannot be inserted; the documentation concedes the protocol is not watertight)."},
-		Rules: []ruleFunc{c13frames, c13reset, c13resetfields, func(p *Prog, r *Report) { latestRule(p, r, "C13.latest") }},
+		Rules: []ruleFunc{c13frames, c13reset, c13resetfields, func(p *Prog, r *Report) { latestRule(p, r, "C13.latest") }, func(p *Prog, r *Report) { firstRoundRule(p, r, "C13.resetorder") }},
 	})
 }
 
@@ -623,5 +623,80 @@ func c03memotime(p *Prog, r *Report) {
 		path := p.pathAvoiding([]*ssa.Function{ie}, t, func(f *ssa.Function) bool { return !inModule(f) || isStoreImpl(f) })
 		r.Check(path == nil, rule, "InsertEvent-/->"+w, p.pos(ie.Pos()), fnName(ie), "insertion never evaluates (and memoises) "+w+"()",
 			"the memoised "+w+"() is evaluated while inserting an event: "+strings.Join(path, " -> ")+"; its value depends on the witnesses registered by the consensus passes run so far, so rounds, witnesses, fame, round-received and blocks depend on how insertions are batched between passes")
+	}
+}
+
+
+// firstRoundRule: InmemStore.Reset ranges over frame.PeerSets (a Go map): the peer sets of a
+// frame reach PeerSetCache.Set in arbitrary order. firstRounds[id] must therefore end up as the
+// MINIMUM round, whatever the order: the entry is written when absent or when the stored value is
+// strictly greater than the round being set.
+func firstRoundRule(p *Prog, r *Report, rule string) {
+	r.Rule(rule, 1, "PeerSetCache.Set keeps firstRounds[id] = min over rounds, independently of the order of calls")
+	fn := p.Func(HG, "PeerSetCache", "Set")
+	fFR := p.Field(HG, "PeerSetCache", "firstRounds")
+	if fn == nil || fFR == nil {
+		r.Anchor(rule, "PeerSetCache.Set / firstRounds")
+		return
+	}
+	round := ssa.Value(fn.Params[1])
+	qAbsent := func(l Lit) bool {
+		lk, present, ok := lookupLit(l)
+		if !ok || present {
+			return false
+		}
+		fv, _ := fieldOf(lk.X)
+		return fv == fFR
+	}
+	qGreater := func(l Lit) bool {
+		a, b, strict, ok := cmpLit(l) // a > b
+		if !ok || !strict || unwrap(b) != round {
+			return false
+		}
+		return dependsOn(a, func(x ssa.Value) bool {
+			lk, ok := x.(*ssa.Lookup)
+			if !ok {
+				return false
+			}
+			fv, _ := fieldOf(lk.X)
+			return fv == fFR
+		})
+	}
+	n := 0
+	for _, w := range p.writersOf(fFR) {
+		if w.Fn != fn || w.Kind != "mapupdate" {
+			continue
+		}
+		mu, ok := w.Instr.(*ssa.MapUpdate)
+		if !ok {
+			continue
+		}
+		n++
+		g, _ := p.allPaths(mu, []Pred{qAbsent, qGreater}, func(m uint32) bool { return m != 0 })
+		// the "later call with an earlier round" case must actually reach the update
+		pi := p.pathMasks(fn, []Pred{qGreater})
+		lowers := false
+		for m := range pi.in[mu.Block().Index] {
+			if pi.predMask(m)&1 != 0 {
+				lowers = true
+			}
+		}
+		okVal := unwrap(mu.Value) == round
+		r.Check(g && lowers && okVal, rule, "PeerSetCache.Set:firstRounds=min", p.ipos(mu), fnName(fn), "written when absent or when the recorded first round is greater: the minimum whatever the order of calls",
+			fmt.Sprintf("firstRounds is not maintained as a minimum (guarded by absent-or-greater: %v, lowered when an earlier round arrives later: %v, value is the round: %v): Store.Reset replays frame.PeerSets in map order, so a peer's first round — and with it whether GetFrame builds a root for it — depends on iteration order", g, lowers, okVal))
+	}
+	if n == 0 {
+		r.Fail(rule, "PeerSetCache.Set:firstRounds=min", p.pos(fn.Pos()), fnName(fn), "PeerSetCache.Set does not record first rounds")
+	}
+	// Reset really ranges over the map (documented reason for the rule) and rounds are re-sorted
+	rs := p.Func(HG, "InmemStore", "Reset")
+	if rs != nil {
+		for _, c := range callsIn(rs, named(HG+".InmemStore.SetPeerSet")) {
+			src, _ := loopSource(rs, c.Block())
+			if src != nil {
+				_, isMap := src.Type().Underlying().(*types.Map)
+				r.Note("%s: InmemStore.Reset replays peer sets from a %s (order %s)", rule, src.Type().String(), map[bool]string{true: "arbitrary", false: "fixed"}[isMap])
+			}
+		}
 	}
 }
